@@ -40,6 +40,7 @@ type Unit struct {
 	Par       int                         `json:"par"`
 	Cross     bool                        `json:"cross"` // thorough tier: repeat with z3 5.1 and cvc5 and compare
 	What      string                      `json:"what"`
+	Hang      bool                        `json:"hang_is_violation"`
 }
 
 // CheckSpec describes the check of one property.
@@ -202,7 +203,7 @@ func runUnit(self, verif, repo string, spec *CheckSpec, u *Unit, tier, solver st
 		go func(jobs []Job) {
 			defer wg.Done()
 			ws := WorkerSpec{Repo: repo, Pkg: u.Pkg, HarnessDir: filepath.Join(verif, "harness", u.Harness), Init: u.Init,
-				Edits: u.Edits, Jobs: jobs, Solver: solver, StepLimit: u.StepLimit, Decisions: u.Decisions, CallDepth: u.CallDepth, TimeoutMS: u.TimeoutMS}
+				Edits: u.Edits, Jobs: jobs, Solver: solver, StepLimit: u.StepLimit, Decisions: u.Decisions, CallDepth: u.CallDepth, TimeoutMS: u.TimeoutMS, Hang: u.Hang}
 			rs, ls, npk, fatal := runWorker(self, ws)
 			mu.Lock()
 			out.results = append(out.results, rs...)
